@@ -215,8 +215,11 @@ STD_MODULES = ("math", "random", "string", "json", "pprint", "dataclasses")
 
 def _try(expr_src, env=None):
     """Well-typed = the REAL function accepts these arguments (a ValueError etc. is still a well-typed call)."""
+    import contextlib
+    import io
     try:
-        eval(compile(expr_src, "<template>", "eval"), {"__builtins__": builtins}, env or {})
+        with contextlib.redirect_stdout(io.StringIO()):
+            eval(compile(expr_src, "<template>", "eval"), {"__builtins__": builtins}, env or {})
         return True
     except (TypeError, AttributeError, NameError, SyntaxError):
         return False
